@@ -940,6 +940,9 @@ func (e *Engine) noteMutable(c *Cell, kind string) {
 func (e *Engine) evAtomic(fr *frame, c *Cell, op string, v *Term) Value {
 	loc, _ := e.cellName(c)
 	e.initialShape(loc, c)
+	// every atomically accessed location takes part in the composition with its initial value, also
+	// when no thread ever writes it (otherwise its loads would read an unconstrained value)
+	e.ev.reg.setMutable(loc, "cell")
 	e.beginAtomic()
 	defer e.endAtomic()
 	switch op {
@@ -1021,11 +1024,24 @@ func (e *Engine) resolveKey(mname string, k Value) (int, string) {
 	}
 	// different from every key seen so far: a new member of the universe (the fixpoint re-explores the
 	// threads that looked keys up before it was known)
-	t, ok := k.(*Term)
-	if !ok {
-		panic(engineErr("event mode: symbolic non-scalar key on the shared map %s is not modelled", mname))
+	var ck string
+	switch x := k.(type) {
+	case *Term:
+		ck = fmt.Sprintf("sym:t%d", x.ID)
+	case *StrVal:
+		var sb strings.Builder
+		sb.WriteString("sym:str")
+		for _, b := range x.B {
+			if b.IsConst() {
+				fmt.Fprintf(&sb, ":%02x", b.U)
+			} else {
+				fmt.Fprintf(&sb, ":t%d", b.ID)
+			}
+		}
+		ck = sb.String()
+	default:
+		panic(engineErr("event mode: symbolic key of type %T on the shared map %s is not modelled", k, mname))
 	}
-	ck := fmt.Sprintf("sym:t%d", t.ID)
 	return e.ev.reg.addMapKey(mname, ck, k), ck
 }
 
